@@ -102,22 +102,27 @@ ExpectedDefault(c, E, a) ==    \* <<>> when no default applies
   LET r == CondRule(c, E, a) IN
   IF r # 0 THEN (IF a.default_ifs[r].has_def THEN SplitDelim(a, <<a.default_ifs[r].def>>) ELSE <<>>)
   ELSE SplitDelim(a, a.defaults)
-P06Level(c, E) ==
+EnvAccepted(a) == \A k \in 1..Len(SplitDelim(a, <<a.env>>)) : VPCheck(a, SplitDelim(a, <<a.env>>)[k]) = ""
+\* lenient = under ignore_errors: matches may be partial (an argument may be missing) and an environment value the
+\* value parser rejects is skipped, but the order command line > environment > default still holds
+P06Level(c, E, lenient) ==
   \A i \in 1..Len(c.args) :
     LET a == c.args[i] IN
     a.action \notin {"Help", "Version"} =>
       IF EHas(E, a.id)
       THEN LET e == EGet(E, a.id) IN
            CASE e.src = "cli" -> TRUE
-             [] e.src = "env" -> a.has_env /\ Concat(e.occ) = SplitDelim(a, <<a.env>>)
-             [] e.src = "def" -> ~a.has_env /\ Concat(e.occ) = ExpectedDefault(c, E, a) /\ ExpectedDefault(c, E, a) # <<>>
+             \* (a rejected environment value leaves an empty env-sourced entry behind when errors are ignored)
+             [] e.src = "env" -> a.has_env /\ (Concat(e.occ) = SplitDelim(a, <<a.env>>) \/ (lenient /\ ~EnvAccepted(a)))
+             [] e.src = "def" -> (~a.has_env \/ (lenient /\ ~EnvAccepted(a)))
+                                 /\ (lenient \/ (Concat(e.occ) = ExpectedDefault(c, E, a) /\ ExpectedDefault(c, E, a) # <<>>))
              [] OTHER -> FALSE
-      ELSE ~a.has_env /\ ExpectedDefault(c, E, a) = <<>>
+      ELSE lenient \/ (~a.has_env /\ ExpectedDefault(c, E, a) = <<>>)
 P06(def, obs) ==
-  (obs.outcome = "Ok" /\ ~def.s.ignore_errors) =>
+  obs.outcome = "Ok" =>
      LET cs == CmdChain(Build(def, NoInherit), obs.chain, 1) IN
-     \* the deepest level only sees its own matcher; shallower levels may have received propagated globals
-     \A i \in 1..Len(cs) : P06Level([cs[i] EXCEPT !.args = SelectSeq(@, LAMBDA a : ~a.global)], obs.chain[i])
+     \* globals copied between levels are judged by C09
+     \A i \in 1..Len(cs) : P06Level([cs[i] EXCEPT !.args = SelectSeq(@, LAMBDA a : ~a.global)], obs.chain[i], def.s.ignore_errors)
 
 \* ---- C07: occurrences combine by action (a fold over the ledger) ---------------------
 OccOf(st, id) == IF \E i \in 1..Len(st) : st[i].id = id THEN st[CHOOSE i \in 1..Len(st) : st[i].id = id].occ ELSE <<>>
